@@ -365,20 +365,44 @@ def globAll (F : Facts) (cfg : Cfg) (root : List Name) (t : Tree) (includes excl
     | some l, some rest => some (l.map (trimRoot rootName) ++ rest)
     | _, _ => none) (some [])
 
-/-- The structure src/fs/glob.go has today (committed copy: lean/Expected/C21.lean). -/
-def Facts.canon : Facts where
+/-- Which optional repairs of `toRegexString` the `ReplaceAll` chain contains. -/
+structure MOpts where
+  qmarkClass : Bool     -- `?` ↦ `[^/]` instead of `.`
+  leadOpt : Bool        -- a leading `^.*/` ↦ `^(.*/)?`
+  escParens : Bool      -- `(`, `)`, `|`, `{`, `}` are escaped like `+` and `.`
+  deriving DecidableEq, Repr
+
+/-- The `ReplaceAll` chain of `toRegexString` with the optional repairs switched on or off. -/
+def chainFor (o : MOpts) : List (Name × Name) :=
+  [(['+'], ['\\', '+']), (['.'], ['\\', '.'])] ++
+  (if o.escParens then [(['('], ['\\', '(']), ([')'], ['\\', ')']), (['|'], ['\\', '|']), (['{'], ['\\', '{']), (['}'], ['\\', '}'])]
+   else []) ++
+  [(['?'], if o.qmarkClass then ['[', '^', '/', ']'] else ['.']),
+   (['*'], ['[', '^', '/', ']', '*']),
+   (['[', '^', '/', ']', '*', '[', '^', '/', ']', '*'], ['.', '*']),
+   (['/', '.', '*', '/'], ['/', '(', '.', '*', '/', ')', '?'])] ++
+  (if o.leadOpt then [(['^', '.', '*', '/'], ['^', '(', '.', '*', '/', ')', '?'])] else [])
+
+/-- The options a chain exhibits. -/
+def optsOfChain (c : List (Name × Name)) : MOpts :=
+  { qmarkClass := c.contains (['?'], ['[', '^', '/', ']'])
+    leadOpt := c.contains (['^', '.', '*', '/'], ['^', '(', '.', '*', '/', ')', '?'])
+    escParens := c.contains (['('], ['\\', '(']) }
+
+/-- The structure src/fs/glob.go had when the check was written: no optional repair. -/
+def MOpts.none : MOpts := ⟨false, false, false⟩
+
+/-- The structure of src/fs/glob.go with the given optional repairs of `toRegexString`. -/
+def Facts.withOpts (o : MOpts) : Facts where
   reWrap := (['^'], ['$'])
-  replacements := [
-    (['+'], ['\\', '+']),
-    (['.'], ['\\', '.']),
-    (['?'], ['.']),
-    (['*'], ['[', '^', '/', ']', '*']),
-    (['[', '^', '/', ']', '*', '[', '^', '/', ']', '*'], ['.', '*']),
-    (['/', '.', '*', '/'], ['/', '(', '.', '*', '/', ')', '?'])]
+  replacements := chainFor o
   doubleStar := ['*', '*']
   outDir := plzOut
   hiddenPrefix := ['.']
   hiddenWrap := ['#']
+
+/-- The structure src/fs/glob.go had when the check was written (no repair): the one the witnesses are about. -/
+def Facts.canon : Facts := Facts.withOpts MOpts.none
 
 /-! ### specification: segment-wise documented semantics -/
 
@@ -430,32 +454,42 @@ def parseSegs (pattern : Name) : Option (List Seg) :=
 
 /-! ### the matchers on *parsed* patterns (what the string-level pipeline yields on the fragment) -/
 
-/-- One pattern item as the regexp `toRegexString` makes of it (`builtin = false`), resp. as `filepath.Match` treats
-    it (`builtin = true`: `?` is one non-'/' character). -/
-def itemRe (builtin : Bool) : GItem → Re
+/-- How a matcher reads a parsed pattern. -/
+structure Mode where
+  anyCls : Bool         -- `?` is one non-'/' character (always so for `filepath.Match`)
+  litsFree : Bool       -- every literal is read as itself (no unescaped regexp syntax)
+  leadOpt : Bool        -- a leading `**/` may stand for no directory at all
+  allowDstar : Bool     -- `**` segments exist (regexp matcher only)
+
+def Mode.builtin : Mode := ⟨true, true, true, false⟩
+def Mode.regex (o : MOpts) : Mode := ⟨o.qmarkClass, o.escParens, o.leadOpt, true⟩
+
+/-- One pattern item as the matcher reads it: the regexp `toRegexString` makes of it, resp. what `filepath.Match`
+    does with it (`?` is one non-'/' character there). -/
+def itemRe (m : Mode) : GItem → Re
   | .lit c => .chr c
   | .star => .starCls true [('/', '/')]
-  | .any => if builtin then .cls true [('/', '/')] else .dot
+  | .any => if m.anyCls then .cls true [('/', '/')] else .dot
   | .cls neg rs => .cls neg rs
 
-def itemsRe (builtin : Bool) : List GItem → Re
+def itemsRe (m : Mode) : List GItem → Re
   | [] => .eps
-  | i :: p => .cat (itemRe builtin i) (itemsRe builtin p)
+  | i :: p => .cat (itemRe m i) (itemsRe m p)
 
-/-- `toRegexString` on a parsed pattern: `a/**/b` ↦ `a/(.*/)?b`, a leading `**/x` ↦ `.*/x` (no preceding '/' for the
-    last `ReplaceAll` to catch), a trailing `a/**` ↦ `a/.*`. -/
-def toReSegs (builtin : Bool) : Bool → List Seg → Re
+/-- `toRegexString` on a parsed pattern: `a/**/b` ↦ `a/(.*/)?b`, a trailing `a/**` ↦ `a/.*`, a leading `**/x` ↦
+    `.*/x` -- unless the chain also rewrites a leading `^.*/` (`leadOpt`), then `(.*/)?x` like everywhere else. -/
+def toReSegs (m : Mode) : Bool → List Seg → Re
   | _, [] => .eps
   | _, .items p :: rest =>
     (match rest with
-     | [] => itemsRe builtin p
-     | _ :: _ => .cat (itemsRe builtin p) (.cat (.chr '/') (toReSegs builtin false rest)))
+     | [] => itemsRe m p
+     | _ :: _ => .cat (itemsRe m p) (.cat (.chr '/') (toReSegs m false rest)))
   | atStart, .dstar :: rest =>
     (match rest with
      | [] => .dotStar
      | _ :: _ =>
-       if atStart then .cat .dotStar (.cat (.chr '/') (toReSegs builtin false rest))
-       else .cat (.opt (.cat .dotStar (.chr '/'))) (toReSegs builtin false rest))
+       if atStart && !m.leadOpt then .cat .dotStar (.cat (.chr '/') (toReSegs m false rest))
+       else .cat (.opt (.cat .dotStar (.chr '/'))) (toReSegs m false rest))
 
 /-- A literal path component as a pattern segment. -/
 def litSeg (c : Name) : Seg := .items (c.map .lit)
@@ -464,18 +498,19 @@ def litSeg (c : Name) : Seg := .items (c.map .lit)
 def reSafe (c : Char) : Bool := !(c = '(' || c = ')' || c = '|')
 
 /-- Items whose reading by the matcher is the documented one and which cannot match '/': literals other than '/'
-    (and, for the regexp, other than the unescaped `(` `)` `|`), `*`, `?` only under `filepath.Match`, and
+    (and, for a regexp chain that does not escape them, other than `(` `)` `|`), `*`, `?` where it is read as one
+    non-'/' character, and
     non-negated classes without '/'. -/
-def okItem (builtin : Bool) : GItem → Bool
-  | .lit c => c != '/' && (builtin || reSafe c)
+def okItem (m : Mode) : GItem → Bool
+  | .lit c => c != '/' && (m.litsFree || reSafe c)
   | .star => true
-  | .any => builtin
+  | .any => m.anyCls
   | .cls neg rs => !neg && !inRanges rs '/'
 
-def okSegs (builtin : Bool) : List Seg → Bool
+def okSegs (m : Mode) : List Seg → Bool
   | [] => true
-  | .dstar :: rest => !builtin && okSegs builtin rest
-  | .items p :: rest => p.all (okItem builtin) && okSegs builtin rest
+  | .dstar :: rest => m.allowDstar && okSegs m rest
+  | .items p :: rest => p.all (okItem m) && okSegs m rest
 
 /-- The pattern `filepath.Match` sees for parsed segments: items joined by a literal '/'. -/
 def flattenSegs : List Seg → List GItem
@@ -484,16 +519,19 @@ def flattenSegs : List Seg → List GItem
   | .items p :: rest => p ++ (match rest with | [] => [] | _ :: _ => .lit '/' :: flattenSegs rest)
 
 /-- The package path contains none of the characters the regexp translation leaves unescaped. -/
-def safePath (builtin : Bool) (root : List Name) : Bool := root.all fun c => c.all fun x => builtin || reSafe x
+def safePath (m : Mode) (root : List Name) : Bool := root.all fun c => c.all fun x => m.litsFree || reSafe x
 
 def hasDstar (segs : List Seg) : Bool := segs.any fun s => match s with | .dstar => true | _ => false
 
 /-- `patternToMatcher(root, pattern).Match(name)` on a parsed pattern: the package path is prepended as literal
     segments (`filepath.Join`), `**` selects the regexp translation. -/
-def structMatch (root : List Name) (segs : List Seg) (name : Name) : Bool :=
+def structMatch (o : MOpts) (root : List Name) (segs : List Seg) (name : Name) : Bool :=
   let full := root.map litSeg ++ segs
-  if hasDstar segs then rmatch (toReSegs false true full) (·.isEmpty) name
+  if hasDstar segs then rmatch (toReSegs (Mode.regex o) true full) (·.isEmpty) name
   else gmatch (flattenSegs full) name
+
+/-- The mode `patternToMatcher` uses for a parsed pattern. -/
+def modeOf (o : MOpts) (segs : List Seg) : Mode := if hasDstar segs then Mode.regex o else Mode.builtin
 
 def hiddenComp (c : Name) : Bool :=
   (match c with | '.' :: _ => true | _ => false) ||
